@@ -97,6 +97,18 @@ pub struct WCase {
     /// files of the second source
     pub files2: Vec<(String, String, Content)>,
     pub steps: Vec<Step>,
+    /// C14 only: a history over a tree of directories whose assets are selected by a custom DirLoadable
+    #[serde(default)]
+    pub dir_ops: Vec<DirOp>,
+}
+
+#[derive(Clone, Debug, Serialize, Deserialize, PartialEq, Eq)]
+pub enum DirOp {
+    /// creates `<parent>.<name>` with a manifest listing `ids` (edits the manifest if the directory exists)
+    AddDir { parent: u8, name: u8, ids: Vec<u8> },
+    /// removes a directory without sub-directories (never the root of the tree)
+    RemoveDir { dir: u8 },
+    EditManifest { dir: u8, ids: Vec<u8> },
 }
 
 // ---------------------------------------------------------------------------
@@ -264,7 +276,7 @@ pub fn wcase_strategy(opts: GenOpts, static_prob: f64) -> BoxedStrategy<WCase> {
             let files2 = f.iter().map(|(i, e, c)| (i.clone(), e.clone(), match c { Content::Ok(v) => Content::Ok(v + 5000), o => o.clone() })).collect();
             // OC blocks must not be used in static mode (the second cache does not outlive the case)
             let second = if static_mode { SecondCache::None } else { second };
-            WCase { files: f, nodes, top, static_mode, second, files2, steps }
+            WCase { files: f, nodes, top, static_mode, second, files2, steps, dir_ops: vec![] }
         })
         .boxed()
 }
@@ -296,6 +308,9 @@ pub struct Runner {
     pub good_recipes: BTreeMap<AKey, Vec<ROp>>,
     /// thread dump taken when a barrier gave up in enhance_hot_reloading mode
     pub lost_detail: String,
+    /// hot_reload mode: barriers whose first hot_reload call returned without the sentinel's change (notified
+    /// before the call, by the calling thread) having been applied, and the number of further calls it took
+    pub late_applications: Vec<u64>,
 }
 
 pub fn candidates_of(c: &WCase) -> BTreeSet<AKey> {
@@ -351,6 +366,7 @@ impl Runner {
             passes: Vec::new(),
             good_recipes: c.nodes.iter().map(|n| ((n.kind, n.id.clone()), n.ops.clone())).collect(),
             lost_detail: String::new(),
+            late_applications: Vec::new(),
         }
     }
 
@@ -584,6 +600,9 @@ impl Runner {
                     break;
                 }
             }
+        }
+        if !self.world.static_mode && rounds > 0 {
+            self.late_applications.push(rounds);
         }
         // (enhance_hot_reloading mode) the sentinel may have been rewritten between the poll and the test above
         self.poll_ids();
